@@ -629,11 +629,23 @@ void ConstrainedFDLayout::generateNonOverlapAndClusterCompoundConstraints(
     }
 }
 
+// Resets the process-wide rectangle borders when it goes out of scope, so
+// that they are not left set if makeFeasible() is left by an exception.
+struct RectangleBorderReset
+{
+    ~RectangleBorderReset()
+    {
+        vpsc::Rectangle::setXBorder(0);
+        vpsc::Rectangle::setYBorder(0);
+    }
+};
+
 void ConstrainedFDLayout::makeFeasible(double xBorder, double yBorder)
 {
     vpsc::Variables vs[2];
     vpsc::Constraints valid[2];
 
+    RectangleBorderReset borderReset;
     vpsc::Rectangle::setXBorder(xBorder);
     vpsc::Rectangle::setYBorder(yBorder);
 
